@@ -285,16 +285,16 @@ type c02Params struct {
 }
 
 func init() {
-	alphabet := []string{"h", "b", "H", "B", "L", "w", "W"}
+	alphabet := []string{"h", "b", "H", "B", "L", "w", "W", "r", "R"}
 	fw.Register(&fw.Prop{
 		ID: "C02", Level: "exploration", Exhaustive: true,
-		Rule:        "generated rule sets (per phase: a counter rule, steerable deny/drop/redirect/block/pass rules with and without status and SecDefaultAction, chained starters, and a steerable ctl:ruleEngine switch as last rule of the phase; engine On/DetectionOnly/Off; both body-limit actions) x requests steering subsets of the rules x ALL sequences of Transaction calls over {ProcessRequestHeaders, ProcessRequestBody, ProcessResponseHeaders, ProcessResponseBody, ProcessLogging, WriteRequestBody small, WriteRequestBody over the limit} up to the length bound (exhaustive). Online monitors: phases 1-4 begin at most once (PhaseBegin events and per-phase TX counters); after the first interruption no RuleEval event of phases 1-4 and every later phase call returns the same interruption; no interruption returned or recorded while the engine is DetectionOnly (configured or switched by ctl); no RuleEval event while it is Off; for in-order sequences the exact outcome (interrupting rule, action, status, data, call that returns it) equals the reference model. Non-trivial: the sequence saw an interruption or a mode switch; distinct by (rule set, request, sequence).",
+		Rule:        "generated rule sets (per phase: a counter rule, steerable deny/drop/redirect/block/pass rules with and without status and SecDefaultAction, chained starters, and a steerable ctl:ruleEngine switch as last rule of the phase; engine On/DetectionOnly/Off; both body-limit actions) x requests steering subsets of the rules x ALL sequences of Transaction calls over {ProcessRequestHeaders, ProcessRequestBody, ProcessResponseHeaders, ProcessResponseBody, ProcessLogging, WriteRequestBody small / over the limit, WriteResponseBody small / over the limit} up to the length bound (exhaustive). Online monitors: phases 1-4 begin at most once (PhaseBegin events and per-phase TX counters); after the first interruption no RuleEval event of phases 1-4 and every later phase call returns the same interruption; no interruption returned or recorded while the engine is DetectionOnly (configured or switched by ctl); no RuleEval event while it is Off; for in-order sequences the exact outcome (interrupting rule, action, status, data, call that returns it) equals the reference model. Non-trivial: the sequence saw an interruption or a mode switch; distinct by (rule set, request, sequence).",
 		Assumptions: []string{"ctl:ruleEngine switches are placed as the last rule of a phase (the statement does not say whether a switch takes effect immediately)", "calls after Close are not generated"},
 		Required:    []string{"sequences_with_interruption", "calls_in_detection_only", "calls_in_off", "mode_switches_by_ctl", "exact_model_comparisons"},
 		Plan: func(tier fw.Tier, seed int64) []fw.Batch {
 			shards, maxLen, programs, requests := 16, 4, 5, 3
 			if tier == fw.Thorough {
-				shards, maxLen, programs, requests = 64, 6, 3, 3
+				shards, maxLen, programs, requests = 64, 5, 3, 3
 			}
 			var bs []fw.Batch
 			for i := 0; i < shards; i++ {
